@@ -10,6 +10,7 @@ require (
 	github.com/fxamacker/cbor/v2 v2.9.2
 	github.com/go-playground/validator/v10 v10.30.3
 	github.com/libp2p/go-libp2p v0.48.0
+	github.com/starknet-io/starknet-p2p-specs v0.0.0-00010101000000-000000000000
 	go.uber.org/zap v1.28.0
 )
 
@@ -138,7 +139,6 @@ require (
 	github.com/sourcegraph/conc v0.3.1-0.20240121214520-5f936abd7ae8 // indirect
 	github.com/spaolacci/murmur3 v1.1.0 // indirect
 	github.com/spf13/pflag v1.0.10 // indirect
-	github.com/starknet-io/starknet-p2p-specs v0.0.0-00010101000000-000000000000 // indirect
 	github.com/stretchr/testify v1.11.1 // indirect
 	github.com/tklauser/go-sysconf v0.3.16 // indirect
 	github.com/tklauser/numcpus v0.11.0 // indirect
